@@ -253,11 +253,89 @@ fn string_data(len: usize, rng: &mut Rng) -> Vec<String> {
             0 => format!("s{}", j),
             1 => FIXED[rng.usize_below(FIXED.len())].to_string(),
             _ => {
+                // any byte that is not ASCII whitespace (space, \t, \n, \x0c, \r) may occur inside a token: printable
+                // characters mostly, now and then a control character (\x0b is NOT whitespace for the reader)
                 let n = rng.range_usize(1, 6);
-                (0..n).map(|_| (0x21 + rng.below(0x7e - 0x21 + 1) as u8) as char).collect()
+                (0..n)
+                    .map(|_| {
+                        if rng.chance(1, 12) {
+                            *rng.pick(&[0x0bu8, 0x01, 0x08, 0x0e, 0x1b, 0x1f, 0x7f]) as char
+                        } else {
+                            (0x21 + rng.below(0x7e - 0x21 + 1) as u8) as char
+                        }
+                    })
+                    .collect()
             }
         })
         .collect()
+}
+
+/// several tensors through ONE writer and ONE reader, more than a buffer of text in all, arranged so that a run of
+/// separators inside a tensor (the blank line between two blocks) straddles the reader's / writer's buffer edge at
+/// every possible split
+fn stream_boundary_checks(rep: &mut Report) {
+    let buf = Writer::verif_buf_size();
+    let replay = vec!["--stream".to_string()];
+    for (vi, dims) in [[2usize, 1, 2], [2, 2, 1], [3, 1, 1]].iter().enumerate() {
+        for shift in 0..4usize {
+            rep.inc("evaluations");
+            rep.inc("stream_boundary_cases");
+            let r = catch(|| {
+                let len: usize = dims.iter().product();
+                let data: Vec<u64> = (0..len as u64).map(|j| 1000 + 37 * j + vi as u64).collect();
+                let t = lib!(Tensor::<u64, 3>::from_vec(*dims, data.clone()));
+                let text = write_out(&t);
+                // offset of the first run of two or more newlines inside the tensor's text
+                let run_at = text.windows(2).position(|w| w == b"\n\n").expect("blank line between blocks");
+                // filler token + '\n' + tensor text: the run starts at buf - 1 - shift + 1 .. so that it covers the edge
+                let want_start = buf + 1 - shift.min(2) - if shift == 3 { 3 } else { 0 };
+                let filler_len = want_start - 1 - run_at;
+                let filler = "f".repeat(filler_len);
+                let tail: Vec<u64> = (0..300u64).map(|j| j * j + 7).collect();
+                let mut v: Vec<u8> = Vec::new();
+                {
+                    let mut w = lib!(Writer::new(Box::new(&mut v)));
+                    lib!(w.write(&filler));
+                    lib!(w.write_char('\n'));
+                    lib!(w.write(&t));
+                    lib!(w.write_char('\n'));
+                    lib!(w.write(&t));
+                    lib!(w.write_char('\n'));
+                    lib!(w.write(&tail));
+                    lib!(w.write_char('\n'));
+                    lib!(w.flush());
+                }
+                let mut reader = reader_over(&v);
+                let f2: String = lib!(reader.read());
+                let t1 = lib!(Tensor::<u64, 3>::read(*dims, &mut reader));
+                let t2 = lib!(Tensor::<u64, 3>::read(*dims, &mut reader));
+                let tl: Vec<u64> = lib!(reader.read_vec(300));
+                let ok = f2 == filler && t1 == t && t2 == t && tl == tail;
+                (ok, v.len(), t1.iter().cloned().collect::<Vec<u64>>(), data)
+            });
+            match r {
+                Ok((true, n, _, _)) => rep.max("max_stream_bytes", n as i64),
+                Ok((false, n, got, want)) => rep.violation(
+                    "stream_roundtrip:D3:u64",
+                    Json::obj()
+                        .set("what", "tensors written one after another through one writer and read back through one reader differ from the originals (a separator run straddles the buffer edge)")
+                        .set("dims", dims.to_vec())
+                        .set("shift", shift)
+                        .set("stream_bytes", n)
+                        .set("first_tensor_back", got)
+                        .set("want", want),
+                    replay.clone(),
+                ),
+                Err(p) => {
+                    if p.in_lib {
+                        rep.violation("panic:stream_roundtrip", Json::obj().set("panic", p.msg.as_str()).set("at", format!("{}:{}", p.file, p.line)).set("dims", dims.to_vec()).set("shift", shift), replay.clone());
+                    } else {
+                        rep.inconclusive(format!("harness panic at {}:{}: {}", p.file, p.line, p.msg));
+                    }
+                }
+            }
+        }
+    }
 }
 
 // ------------------------------------------------------------------------------------------------
@@ -996,6 +1074,11 @@ fn main() {
         }
     });
     report.merge(rep);
+    {
+        let mut rep = Report::new();
+        stream_boundary_checks(&mut rep);
+        report.merge(rep);
+    }
     // deterministic sample order
     report.samples.sort_by_key(|s| s.dump());
     eng.finish(report);
